@@ -363,12 +363,14 @@ impl<W: Write + io::Seek> ZipWriter<W> {
     where
         S: Into<String>,
     {
-        self.finish_file()?;
-
+        // Refuse a name that cannot be represented before touching any state: closing the previous entry
+        // first would consume its raw-copy flag, and a later `finish()` would then re-patch that entry.
         let name: String = name.into();
         if name.len() > spec::ZIP64_ENTRY_THR {
             return Err(ZipError::InvalidArchive("File name is too long"));
         }
+
+        self.finish_file()?;
 
         let raw_values = raw_values.unwrap_or(ZipRawValues {
             crc32: 0,
